@@ -24,7 +24,7 @@ REQUIRED = ['makerandCIJ_und/count', 'makerandCIJ_und/symmetric', 'makerandCIJ_d
             'makeringlatticeCIJ/nearer_bands_full_first', 'maketoeplitzCIJ/count', 'makeevenCIJ/count',
             'makefractalCIJ/reported_count', 'makerandCIJdegreesfixed/in_degrees', 'makerandCIJdegreesfixed/out_degrees']
 CASE_TIMEOUT = {'quick': 30.0, 'thorough': 120.0}
-POL = sorted(rngmod.POLICIES)
+POL = sorted(p for p in rngmod.POLICIES if p != 'stall')
 
 
 def cases(tier, seed):
